@@ -30,6 +30,18 @@ pub proof fn lemma_shift24()
     assert((1u64 << 24u32) == 0x1000000u64) by (bit_vector);
 }
 
+// equivalent spellings of the same arithmetic (so that `/ 2` written as `>> 1`, `* 2^24` as `<< 24`, or the top-bit test as a
+// comparison is not an alarm): the solver does not relate them by itself
+pub broadcast proof fn lemma_spell_half(x: u32) ensures #[trigger] (x >> 1u32) == x / 2 { assert((x >> 1u32) == x / 2) by (bit_vector); }
+pub broadcast proof fn lemma_spell_shl24(e: u64) requires e < 0x100_0000_0000 ensures #[trigger] (e << 24u32) == e * 0x1000000 {
+    assert(e < 0x100_0000_0000 ==> (e << 24u32) == e * 0x1000000) by (bit_vector);
+}
+pub broadcast proof fn lemma_spell_top_of_24(x: u32) requires x < 0x1000000 ensures (#[trigger] (x >> 23u32) == 1) == (x >= 0x800000) {
+    assert(x < 0x1000000 ==> (((x >> 23u32) == 1) == (x >= 0x800000))) by (bit_vector);
+}
+pub proof fn lemma_one_shl23() ensures (1u32 << 23u32) == 0x800000u32 { assert((1u32 << 23u32) == 0x800000u32) by (bit_vector); }
+pub broadcast group cb_spellings { lemma_spell_half, lemma_spell_shl24, lemma_spell_top_of_24 }
+
 // ---- hardware model: unbounded tick count T; the FIFO stores T mod 2^24 with bit 0 replaced by the edge flag (cleared by the
 // parser); marker k is written when the 24-bit counter crosses a half period for the (k+1)-th time, i.e. at tick (k+1)*2^23,
 // and records the top bit of the half period that just ended (k odd).
